@@ -93,6 +93,20 @@ def features(lines):
     return '+'.join(f) or 'plain'
 
 
+def repeated_scalar(lines):
+    seen = set()
+    for ln in lines:
+        if ln['k'] == 'sep':
+            seen = set()
+        elif ln['k'] in ('junk', 'copen', 'cmid', 'cclose'):
+            return False
+        elif ln['k'] == 'field' and ln['key'] != 'issue':
+            if ln['key'] in seen:
+                return True
+            seen.add(ln['key'])
+    return False
+
+
 class ParseBatch:
     """texts for the parse harness with what is expected of each"""
 
@@ -286,6 +300,12 @@ def run(ctx):
         if meta['exp'] is None:
             if x.get('ok'):
                 unspec_accepted += 1
+                if repeated_scalar(meta['lines']):
+                    # not a violation of C17 as stated (the text is no rendering of records), but the
+                    # documentation allows only `issue` to be repeated: report it as a divergence
+                    ctx.cov['divergences'] += 1
+                    if ctx.cov['divergences'] == 1:
+                        ctx.warn('MODEL-DIVERGENCE: Parse accepts a record that repeats a scalar field: %r' % meta['text'][:200])
             matched += 1
             continue
         if not x.get('ok'):
